@@ -54,4 +54,32 @@ def serve (resume : Bool) : Nat → List Stream → List Bytes
 /-- The byte stream a client produces for a list of messages. -/
 def enc (ms : List Bytes) : Bytes := (ms.map (fun m => hdr m.length ++ m)).flatten
 
+/-! ### One stream of `ServeDoQ`: the reply under the stream deadline and the client's flow control
+
+`ServeDoQ` arms one deadline when it accepts a stream (`limit` ms, never re-armed), reads the query, runs the handler
+(done `tHandler` ms after the accept), hands the reply frame to one `stream.Write` and closes the stream (FIN at the
+offset reached). A QUIC `Write` puts bytes on the stream as the client's flow control lets them through: the credit
+is a list of grants `(t, n)`: from `t` ms after the accept on, `n` more bytes may go. A `Write` that starts at `t0` uses
+a grant at `max t t0`; a write deadline `d` makes the `Write` return at `d`, so only grants usable before `d` count.
+Whether the deadline of the stream bounds writes at all is the question (`SetReadDeadline` vs `SetDeadline`: fact
+`c16DoqStreamDeadlineReadOnly`). -/
+abbrev Grants := List (Nat × Nat)
+
+def usable (deadline : Option Nat) (t0 : Nat) (g : Nat × Nat) : Bool :=
+  match deadline with
+  | none => true
+  | some d => decide (max g.1 t0 < d)
+
+def credit (deadline : Option Nat) (t0 : Nat) (gs : Grants) : Nat :=
+  ((gs.filter (usable deadline t0)).map (·.2)).sum
+
+/-- What `stream.Write b`, started at `t0`, has put on the stream when it returns. -/
+def doqWrite (deadline : Option Nat) (t0 : Nat) (gs : Grants) (b : Bytes) : Bytes := b.take (credit deadline t0 gs)
+
+/-- The bytes the client finds on the stream before FIN. -/
+def doqStream (writeBounded : Bool) (limit tHandler : Nat) (gs : Grants) (reply : Bytes) : Bytes :=
+  match frame reply with
+  | none => []
+  | some f => doqWrite (if writeBounded then some limit else none) tHandler gs f
+
 end Model.C16
